@@ -164,6 +164,10 @@ impl std::error::Error for MemoryError {}
 #[derive(Debug)]
 pub struct MemoryBudget {
     total_limit: AtomicUsize,
+    /// Bytes claimed against `total_limit` by all pools together. The per-pool
+    /// counters are updated independently, so the limit is enforced on this
+    /// single counter; at rest it equals the sum of the pool counters.
+    total_claimed: AtomicUsize,
     cache_used: AtomicUsize,
     query_used: AtomicUsize,
     recovery_used: AtomicUsize,
@@ -190,6 +194,7 @@ impl MemoryBudget {
 
         Self {
             total_limit: AtomicUsize::new(limit),
+            total_claimed: AtomicUsize::new(0),
             cache_used: AtomicUsize::new(0),
             query_used: AtomicUsize::new(0),
             recovery_used: AtomicUsize::new(0),
@@ -259,28 +264,41 @@ impl MemoryBudget {
 
         let pool_counter = self.pool_counter(pool);
         let reserved = pool.reserved_size();
+        let total_limit = self.total_limit();
 
+        // Claim the bytes against the global limit first. Checking the sum of the
+        // pool counters and then bumping only one of them would let allocations in
+        // two different pools both pass the check and exceed the limit together.
+        let mut claimed = self.total_claimed.load(Ordering::Acquire);
         loop {
-            let current_pool_used = pool_counter.load(Ordering::Acquire);
-            let current_total_used = self.total_used();
-            let total_limit = self.total_limit();
-
-            let new_pool_used = current_pool_used + bytes;
-            let new_total_used = current_total_used + bytes;
-
-            if new_total_used > total_limit {
+            if claimed + bytes > total_limit {
                 bail!(MemoryError {
                     pool,
                     requested: bytes,
-                    available: total_limit.saturating_sub(current_total_used),
+                    available: total_limit.saturating_sub(claimed),
                 });
             }
+            match self.total_claimed.compare_exchange_weak(
+                claimed,
+                claimed + bytes,
+                Ordering::AcqRel,
+                Ordering::Acquire,
+            ) {
+                Ok(_) => break,
+                Err(actual) => claimed = actual,
+            }
+        }
+
+        loop {
+            let current_pool_used = pool_counter.load(Ordering::Acquire);
+            let new_pool_used = current_pool_used + bytes;
 
             if pool != Pool::Shared && new_pool_used > reserved {
                 let overflow = new_pool_used - reserved;
                 let shared_available = self.shared_available();
 
                 if overflow > shared_available {
+                    self.total_claimed.fetch_sub(bytes, Ordering::AcqRel);
                     bail!(MemoryError {
                         pool,
                         requested: bytes,
@@ -318,7 +336,11 @@ impl MemoryBudget {
                 Ordering::AcqRel,
                 Ordering::Acquire,
             ) {
-                Ok(_) => return,
+                Ok(_) => {
+                    self.total_claimed
+                        .fetch_sub(current - new_value, Ordering::AcqRel);
+                    return;
+                }
                 Err(_) => continue,
             }
         }
@@ -354,6 +376,7 @@ impl MemoryBudget {
     }
 
     pub fn reset(&self) {
+        self.total_claimed.store(0, Ordering::Release);
         self.cache_used.store(0, Ordering::Release);
         self.query_used.store(0, Ordering::Release);
         self.recovery_used.store(0, Ordering::Release);
